@@ -239,3 +239,4 @@ TEXT["C18"]["level"] += " FilesystemStorageBackend.to_dict is proved to carry th
 TEXT["C14"]["level"] += (" The caller whose closure decides is the function a modifier clone was made from (a clone carries its original's version as an explicit one -- D33, repaired), and the "
                          "package scope handed to the dependency collection is proved to be exactly the module's __package__.")
 TEXT["C04"]["note"] += " The scalar case of _normalized_json is under contract (json.dumps of that value, computed afresh); functools.lru_cache on a helper is modelled as 'served for an equal earlier argument'."
+TEXT["C12"]["level"] += " A stored reference is rebuilt with the parameter names recorded with it: a function found under the same name and version but with another signature gives an external reference (D34, repaired)."
